@@ -423,12 +423,18 @@ def buildHeader (s : Sock) (seq : UInt32) (flags : UInt8) (wnd : UInt16) (now : 
   let a := push32 a now
   push32 a s.ts_recent
 
+/-- the window as the peer is told: `rcv_wnd >> rwnd_scale` (the header field is its low 16 bits) -/
+abbrev advWnd (rcv_wnd : UInt32) (sc : UInt8) : UInt32 := rcv_wnd >>> sc.toUInt32
+
+/-- what `packet` writes into the 16-bit window field -/
+abbrev advField (rcv_wnd : UInt32) (sc : UInt8) : UInt16 := (advWnd rcv_wnd sc).toUInt16
+
 /-- `packet` -/
 def packet (s : Sock) (seq : UInt32) (flags : UInt8) (offset len now : UInt32) : R (WriteResult × Sock) :=
   if ¬ (cHEADER_SIZE + len ≤ cMAX_PACKET) then fault (.assert "packet: HEADER_SIZE + len <= MAX_PACKET")
   else if s.rwnd_scale ≥ 32 then fault (.ub "packet: rcv_wnd >> rwnd_scale")
   else do
-    let wnd : UInt16 := (s.rcv_wnd >>> s.rwnd_scale.toUInt32).toUInt16
+    let wnd : UInt16 := advField s.rcv_wnd s.rwnd_scale
     let hdr := buildHeader s seq flags wnd now
     let s := { s with ts_lastack := s.rcv_nxt }
     let buffer ← (if len != 0 then do
@@ -1091,7 +1097,7 @@ def recv (s : Sock) (len : Nat) (clk : UInt32) : R (Int × Array UInt8 × Sock) 
       let available_space := s.rbuf.getWriteRemaining
       if gsub available_space s.rcv_wnd.toNat ≥ (min (s.rbuf_len / 2) s.mss).toNat then do
         -- closed = what the peer was told: the advertised (scaled) window (fix: a window below 2^scale is advertised as 0)
-        let bWasClosed := (s.rcv_wnd >>> s.rwnd_scale.toUInt32) == 0
+        let bWasClosed := advWnd s.rcv_wnd s.rwnd_scale == 0
         let s := { s with rcv_wnd := UInt32.ofNat available_space }
         let s ← (if bWasClosed then attemptSend s .sfImmediateAck clk else pure s : R Sock)
         pure ((bytesread : Int), bytes, s)
